@@ -11,7 +11,6 @@ package props
 // HKDF+HMAC verifier.
 
 import (
-	"sync"
 	"bytes"
 	"crypto/hmac"
 	"encoding/base64"
@@ -21,6 +20,7 @@ import (
 	"os"
 	"path/filepath"
 	"strings"
+	"sync"
 	"time"
 
 	"github.com/bbockelm/cedar/security"
